@@ -165,7 +165,9 @@ def analyse_lookahead(name: str) -> dict:
     if not (isinstance(qo, HList) and not qo.segs and qo.origin[2] == I.obj(q).origin[2]):
         info["problems"].append("local queue is not initialised empty")
     # order inside the body: read, append, then tests
-    flat = [n for n, c in nf.iter_nodes(body) if n[0] in ("ev", "mutate", "break", "continue", "return", "raise")]
+    # a return inside an inlined callee (helper, lambda) ends that callee, not the loop
+    flat = [n for n, c in nf.iter_nodes(body) if n[0] in ("ev", "mutate", "break", "continue", "return", "raise")
+            and not (n[0] == "return" and any(x[0] == "call" for x in c))]
     ir = flat.index(reads[0][0])
     ia = flat.index(appends[0][0])
     first_exit = min([i for i, n in enumerate(flat) if n[0] in ("break", "continue", "return", "raise")], default=len(flat))
